@@ -9,9 +9,13 @@ BUDGET = {'quick': 120, 'thorough': 1500}
 
 
 def _obj(kind, shape, fr_name, perm=None, origin=(0, 0, 0)):
+    scale = None
+    if '*' in shape:
+        shape, sc = shape.split('*')
+        scale = F(sc)
     if kind == 'ConvexPolygon':
-        return B.polygon(shape, fr_name, origin=origin, perm=perm)
-    return B.body(shape, fr_name, origin=origin, perm=perm)
+        return B.polygon(shape, fr_name, origin=origin, perm=perm, scale=scale)
+    return B.body(shape, fr_name, origin=origin, perm=perm, scale=scale)
 
 
 def _ref(o, off=None):
@@ -62,6 +66,8 @@ def families(tier, seed):
         (PG, 'quad', 'axis', PG, 'tri', 'axis', 8, (1, 2, -1), (0, -1, 0)),
         # coplanar-at-one-instant: parallel planes passing through each other
         (PG, 'square', 'axis', PG, 'tri', 'axis', None, (1, 1, -2), (0, 0, 1)),
+        # "+" crossing of two coplanar rectangles: they overlap although no vertex of either lies in the other
+        (PG, 'wide', 'axis', PG, 'tall', 'axis', None, (0, 0, 0), (1, 0, 0)),
         # polygon through polyhedron
         (PH, 'cube', 'axis', PG, 'square', 'axis', None, (1, 1, -1), (0, 0, 1)),
         (PH, 'cube', 'axis', PG, 'tri', 'axis', 8, (-1, 1, 1), (1, 0, 0)),
@@ -70,6 +76,8 @@ def families(tier, seed):
         (PH, 'cube', 'axis', PH, 'cube', 'axis', None, (1, 1, 0), (0, 0, 1)),
         (PH, 'cube', 'axis', PH, 'cube', 'axis', None, (0, 0, 0), (1, 1, 1)),
         (PH, 'tetra', 'axis', PH, 'tetra', 'axis', None, (0, 0, 0), (1, 0, 0)),
+        # nested bodies: a small cube travels through a big one (outside, touching, strictly inside) - both argument orders
+        (PH, 'cube', 'axis', PH, 'cube*1/4', 'axis', None, (F(3, 4), F(3, 4), F(1, 2)), (1, 0, 0)),
     ]
     extra = [
         (PG, 'penta', 'planar', PG, 'tri', 'planar', None, (0, 0, 0), (1, 0, 0)),
@@ -84,6 +92,8 @@ def families(tier, seed):
         (PH, 'pyramid', 'axis', PG, 'quad', 'axis', 8, (-1, 1, 1), (1, 0, 0)),
         (PH, 'cube', 'oblique', PG, 'square', 'oblique', None, (0, 0, -1), (0, 0, 1)),
         (PH, 'cube', 'axis', PH, 'cube', 'axis', None, (1, 0, 0), (0, 1, 1)),
+        (PH, 'tetra', 'axis', PH, 'cube*1/8', 'axis', None, (F(1, 4), F(1, 4), F(1, 4)), (1, 0, 0)),
+        (PH, 'cube', 'oblique', PH, 'tetra*1/4', 'axis', None, (0, F(1, 2), F(1, 2)), (1, 0, 0)),
         (PH, 'cube', 'axis', PH, 'prism', 'axis', None, (0, 0, 0), (1, 0, 0)),
         (PH, 'tetra', 'axis', PH, 'tetra', 'axis', None, (0, 0, 0), (1, 1, 1)),
         (PH, 'cube', 'axis', PH, 'octa', 'axis', None, (1, 1, -2), (0, 0, 1)),
@@ -93,7 +103,7 @@ def families(tier, seed):
     ]
     rows = quick if tier == 'quick' else quick + extra
     for i, (ka, sa, fa, kb, sb, fb, pb, base, w) in enumerate(rows):
-        for swap in ((False,) if (tier == 'quick' and ka == kb == PH) else (False, True)):
+        for swap in ((False,) if (tier == 'quick' and ka == kb == PH and '*' not in sb) else (False, True)):
             method = (i % 2 == 1)
             heavy = (ka == PH and kb == PH)
             fams.append(Family('%s-%s@%s/%s-%s@%s%s/base%s/w%s/%s%s' % (ka[6:], sa, fa, kb[6:], sb, fb, '' if pb is None else '#%d' % pb,
